@@ -539,7 +539,7 @@ theorem poolD_length (m : Method) (p : ℕ) (rows : List (List ℝ)) (hne : rows
     obtain ⟨r, hr, rfl⟩ := List.mem_map.mp hw
     rw [applyD_length]; exact hlen r hr
   have := meanRows_length p _ (by simpa using hne) hW
-  cases m <;> simp [poolD, applyD, this]
+  cases m <;> simp [poolD, applyD, this, Rsa.Gen.C07.hasShift, Method.code]
 
 theorem poolO_expand (m : Method) (mask : List Bool) (denses : List (List ℝ)) (hne : denses ≠ [])
     (hlen : ∀ d ∈ denses, d.length = mask.count true) :
